@@ -27,14 +27,66 @@ def inj_part(ck, tier, rng):
         break
 
 
+def slow_part(ck, tier, rng):
+    """devices that take real (wall-clock) time to compute: two slow sources updated in one tick feed a mixer, flat and across a
+    system boundary -- whatever a tick does about long computations, the mixer is handed the latest value of both"""
+    EXT, EXP = 1, 2
+    shapes = [({1: dict(order=[(3, "dev"), (4, "dev"), (5, "dev")], conns=[(3, 1, 5, 1), (4, 1, 5, 2), (3, 2, 5, 3)])},
+               {3: (31, 300_000_000, 1), 4: (32, 300_000_000, 1), 5: (33, 1_000_000_000, 0)}),
+              ({1: dict(order=[(3, "dev"), (4, 2), (8, "dev")], conns=[(3, 1, 8, 1), (4, 1, 8, 2), (3, 1, 4, 1)]),
+                2: dict(order=[(5, "dev"), (6, "dev"), (7, "dev")], conns=[(EXT, 1, 5, 1), (5, 1, 7, 1), (6, 1, 7, 2), (7, 1, EXP, 1)])},
+               {3: (34, 300_000_000, 1), 5: (35, 300_000_000, 1), 6: (36, 300_000_000, 1), 7: (37, 1_000_000_000, 0), 8: (38, 1_000_000_000, 0)})]
+    cases, terms = [], []
+    for cfg, devs in shapes:
+        for slow in ([3, 4], [3], [5, 6], [4], [6]):
+            slow = [d for d in slow if d in devs]
+            if not slow:
+                continue
+            slevel.SLOW.clear()
+            slevel.SLOW.update({d: 0.012 for d in slow})
+            try:
+                r = slevel.run_internal(cfg, devs, (1, 1), 0, [], 1_000_000_003)
+            finally:
+                slevel.SLOW.clear()
+            cases.append(dict(cfg=cfg, devs=devs, slow=slow, run=r))
+            terms.append(slevel.render_sim_case(cfg, devs, (1, 1), 0, [], 1_000_000_003, r))
+    bad = run_shards(PID + "_slow", sprops.HEADER, "sim_case", "check_sim_all", terms, shard_size=12)
+    ck.coverage.update(runs_with_devices_that_take_real_time=len(cases), of_them_disagreeing=len(bad))
+    for i in sorted(bad):
+        c = cases[i]
+        ck.report("values-differ-when-devices-take-real-time-to-compute",
+                  f"devices {c['slow']} take 12 ms of real time per update: the run differs from the model (codes {bad[i]})",
+                  dict(kind="slow", cfg={str(k): v for k, v in c["cfg"].items()}, devs={str(k): list(v) for k, v in c["devs"].items()}, slow=c["slow"], codes=bad[i],
+                       updates=[(cc, t, sorted(i2.items())) for (cc, t, i2) in c["run"]["trace"]][:24]))
+        break
+
+
+def both_parts(ck, tier, rng):
+    inj_part(ck, tier, rng)
+    slow_part(ck, tier, rng)
+
+
 def main(tier, seed):
     return sprops.main_S(PID, tier, seed, {81}, "Props.C03",
                          ["Model/Sim.v", "Oracle/SimCheck.v", "Oracle/SimOracle.v", "Model/Wiring.v", "Model/Ticker.v", "Model/Component.v", "Proofs/WiringP.v", "Proofs/TickerP.v", "Proofs/SimP.v", "Proofs/FlattenP.v", "Proofs/NonInterfP.v", "Proofs/LatestP.v", "Model/SimTime.v", "Model/Inline.v", "Proofs/EqvP.v", "Proofs/WakeWfP.v", "Proofs/InlineP.v", "Proofs/InlineLoopP.v", "Proofs/InlineScopeP.v", "Proofs/InlineLatestP.v", "Proofs/FrameP.v", "Proofs/ExtentP.v", "Proofs/EqvCongP.v", "Proofs/ParDevP.v", "Proofs/AgreeP.v", "Proofs/FuelP.v", "Proofs/InlineAllP.v", "Proofs/InlineAllLatestP.v",
                           "Model/NSim.v", "Model/NNSim.v", "Proofs/Confluence3P.v", "Proofs/NScheduleP.v", "Proofs/NDetP.v", "Proofs/NDetScopeP.v", "Proofs/SimNTP.v", "Model/PyLib.v", "Gen/SourceFuns.v", "Proofs/GenDeviceInputsP.v", "Props/C03.v"],
-                         "values along the wiring", "nested", extra=inj_part)
+                         "values along the wiring", "nested", extra=both_parts)
 
 
 def replay(rp):
+    if rp.get("kind") == "slow":
+        cfg = {int(k): dict(order=[(c, kk) for c, kk in v["order"]], conns=[tuple(x) for x in v["conns"]]) for k, v in rp["cfg"].items()}
+        devs = {int(k): tuple(v) for k, v in rp["devs"].items()}
+        slevel.SLOW.clear()
+        slevel.SLOW.update({d: 0.012 for d in rp["slow"]})
+        try:
+            r = slevel.run_internal(cfg, devs, (1, 1), 0, [], 1_000_000_003)
+        finally:
+            slevel.SLOW.clear()
+        bad = run_shards("replay", sprops.HEADER, "sim_case", "check_sim_all", [slevel.render_sim_case(cfg, devs, (1, 1), 0, [], 1_000_000_003, r)])
+        print("slow devices:", rp["slow"], "updates:", [(c, t, sorted(i.items())) for (c, t, i) in r["trace"]][:24])
+        print("codes:", bad.get(0, []))
+        return 1 if bad else 0
     if rp.get("kind") == "injection":
         cfg = {int(k): dict(order=[(c, kk) for c, kk in v["order"]], conns=[tuple(x) for x in v["conns"]]) for k, v in rp["cfg"].items()}
         devs = {int(k): tuple(v) for k, v in rp["devs"].items()}
